@@ -379,7 +379,7 @@ def rule_resolve(E, R):
                         n = leaf.node
                         if n.get("k") == "Call" and norm(n.get("callee", "")) == "core::result::Result::Ok" and sem.peel(n["args"][0]) is fl.node:
                             good = any(a.kind == "ok" and pol and sem.peel(a.node) is g.node for a, pol in sem.literals(leaf.pc)[0])
-                        elif n.get("k") == "MethodCall" and n["m"] == "map" and sem.peel(n["recv"]) is g.node:
+                        elif n.get("k") == "MethodCall" and n["m"] == "map" and S.resolve(n["recv"], leaf.frame).node is g.node:
                             clo = closure_of(n["args"][0])
                             good = clo is not None and tail(clo["body"]) is fl.node
                     ok = good
